@@ -74,13 +74,14 @@ def item_equal(a, b):
 
 
 class ExportRecord:
-    __slots__ = ("series", "description_row", "round", "complete", "seq")
+    __slots__ = ("series", "description_row", "round", "complete", "seq", "consecutive")
 
-    def __init__(self, series, description_row, rnd, seq):
+    def __init__(self, series, description_row, rnd, seq, consecutive=True):
         self.series = series          # name -> (freq|None, nv, cells(rounded, restricted), desc)
         self.description_row = description_row
         self.round = rnd
         self.seq = seq
+        self.consecutive = consecutive   # every period column is one consecutive ascending run
 
 
 class DataboxWorld(World):
@@ -634,6 +635,14 @@ class DataboxWorld(World):
             f = rng.choice(self.cfg["freqs"])
             a = self.cfg["bases"][f] + rng.randint(-5, 5)
             span = {"k": "span", "freq": f, "a": a, "b": a + rng.randint(0, 8)}
+            q = rng.random()
+            if q < 0.2:
+                span["step"] = rng.choice([2, 3])          # every other / every third period
+            elif q < 0.35:
+                span["a"], span["b"], span["step"] = span["b"], span["a"], -1      # descending
+            elif q < 0.45:
+                n = span["b"] - span["a"] + 1
+                span = {"k": "periods", "freq": f, "ts": sorted(rng.sample(range(span["a"], span["b"] + 1), rng.randint(1, n)), reverse=rng.random() < 0.3)}
         elif r < 0.35:
             fs_ = {}
             for f in self.cfg["freqs"]:
@@ -1279,6 +1288,7 @@ class DataboxWorld(World):
         names = list(bind) if a["names"] is None else [n for n in a["names"] if n in bind]
         series = {n: self.heap[bind[n][1]][1] for n in names if bind[n][0] == "s"}
         span = a["span"]
+        self._last_export_consecutive = True
         ranges = {}          # freq -> (lo, hi) | None (no rows)
         if span is None:
             freqs = set(m.freq for m in series.values() if m.lo is not None)
@@ -1287,9 +1297,20 @@ class DataboxWorld(World):
                 his = [m.hi for m in series.values() if m.lo is not None and m.freq == f]
                 ranges[f] = (min(los), max(his))
             include_unknown = True
-        elif span["k"] == "span":
-            ranges[span["freq"]] = (span["a"], span["b"])
+        elif span["k"] in ("span", "periods"):
+            if span["k"] == "periods":
+                listed = list(span["ts"])
+            else:
+                st = span.get("step", 1)
+                listed = list(range(span["a"], span["b"] + (1 if st > 0 else -1), st))
+            if not listed:
+                return {}
+            ranges[span["freq"]] = (min(listed), max(listed))
+            only = {span["freq"]: set(listed)}
             include_unknown = False
+            self._last_export_consecutive = not (len(listed) != max(listed) - min(listed) + 1 or listed != sorted(listed))
+            if not self._last_export_consecutive:
+                self.probes["export_span_not_a_consecutive_ascending_run"] += 1
         else:
             for f, v in span["v"].items():
                 if v == "all":
@@ -1302,6 +1323,7 @@ class DataboxWorld(World):
             include_unknown = False
         out = {}
         rnd = a["round"]
+        only = locals().get("only", {})
         for n, m in series.items():
             if m.lo is None:
                 if include_unknown:
@@ -1312,7 +1334,7 @@ class DataboxWorld(World):
             lo, hi = ranges[m.freq]
             cells = {}
             for t, v in m.cells.items():
-                if lo <= t <= hi:
+                if lo <= t <= hi and (m.freq not in only or t in only[m.freq]):
                     cells[t] = np.round(v, rnd) if rnd is not None else v.copy()
             out[n] = (m.freq, m.nv, cells, m.desc)
         return out
@@ -1324,7 +1346,9 @@ class DataboxWorld(World):
         span = a["span"]
         if span is not None:
             if span["k"] == "span":
-                kw["span"] = ir.Span(P(span["freq"], span["a"]), P(span["freq"], span["b"]))
+                kw["span"] = ir.Span(P(span["freq"], span["a"]), P(span["freq"], span["b"]), span.get("step", 1))
+            elif span["k"] == "periods":
+                kw["span"] = [P(span["freq"], t) for t in span["ts"]]
             else:
                 F = ir.Frequency
                 kw["frequency_span"] = {
@@ -1404,7 +1428,7 @@ class DataboxWorld(World):
             self.probes["export_completed_despite_fault"] += 1
         self._check_heap("export", pred)
         self._check_bindings_unchanged("export", pred)
-        self.disk[path] = ExportRecord(rec, a["description_row"], a["round"], self.seq)
+        self.disk[path] = ExportRecord(rec, a["description_row"], a["round"], self.seq, self._last_export_consecutive)
         if "short_write" in fired:
             try:
                 bytes(self.fs.files[path]).decode("utf-8")
@@ -1464,7 +1488,7 @@ class DataboxWorld(World):
             pred = ",".join(parts)
         opens_before = self.fs.totals["open"]
         kw = {"description_row": a["description_row"]}
-        if a.get("start_period_only"):
+        if a.get("start_period_only") and (rec is None or rec == "torn" or rec.consecutive):
             # the exported blocks are contiguous, so inferring the periods from the first one must give the same series
             kw["start_period_only"] = True
             pred = ",".join(x for x in (pred, "start_period_only") if x)
